@@ -1,19 +1,40 @@
 //! C11 — DTLS handshakes converge: both sides agree on keys or neither connects.
 //! Engine E2: every fault history with <= B deviations over every handshake datagram (including
-//! retransmissions) of two real DtlsTransports on the in-memory network under virtual time.
+//! retransmissions) of two real DtlsTransports on the in-memory network under virtual time, and
+//! of one real DtlsTransport against the webrtc-rs `dtls` reference endpoint in either role.
 use serde_json::json;
+use vh::dtls_ref::{self, Pair, RefCfg, RefObs};
 use vh::dtls_sim::*;
 use vh::explorer::{self, Execution, Verdict};
 
-struct Ex(HsObs);
+/// One execution: the common observation, plus the reference-side extras for the mixed pairs.
+struct Ex(HsObs, Option<RefObs>);
 impl Execution for Ex {
     fn trace_hash(&self) -> u64 {
         self.0.trace_hash
     }
 }
 
-fn oracle(o: &Ex) -> Vec<Verdict> {
-    let o = &o.0;
+/// Histories whose failure to converge is the reference endpoint's doing (see `ref_at_fault`).
+static REF_LIMITED: std::sync::Mutex<std::collections::BTreeMap<String, u64>> = std::sync::Mutex::new(std::collections::BTreeMap::new());
+
+/// The only reference limitation the oracle excuses: webrtc-rs `dtls` 0.17.2 drops its handshake
+/// state machine when `DTLSConn::new` returns, so as *server* it never re-sends its final flight
+/// (CCS+Finished). If no copy of that flight was ever handed to rustrtc, rustrtc (which kept
+/// retransmitting its own last flight, as it must) cannot finish: nothing is demanded of it.
+fn ref_at_fault(o: &HsObs, r: &RefObs) -> Option<String> {
+    let ri = 1 - r.ref_idx;
+    if r.ref_idx == 1 && o.state[r.ref_idx] == "Connected" && o.state[ri] != "Connected" && r.ref_final_delivered == 0 && r.rustrtc_tx_after_ref_connected >= 1 {
+        return Some(format!(
+            "reference server Connected, sent its final flight {}x, none reached rustrtc; rustrtc retransmitted {}x afterwards and got no answer",
+            r.ref_final_sent, r.rustrtc_tx_after_ref_connected
+        ));
+    }
+    None
+}
+
+fn oracle(e: &Ex) -> Vec<Verdict> {
+    let o = &e.0;
     let mut out = vec![];
     // safety
     if o.ever_connected_on_different_keys || o.keys_equal == Some(false) {
@@ -34,56 +55,122 @@ fn oracle(o: &Ex) -> Vec<Verdict> {
     }
     // liveness: finitely many faults, retransmissions get through => both Connected by the deadline
     if !(o.state[0] == "Connected" && o.state[1] == "Connected") {
+        if let Some(r) = &e.1 {
+            if let Some(why) = ref_at_fault(o, r) {
+                let mut g = REF_LIMITED.lock().unwrap();
+                let _ = why; // the per-history detail is printed by --replay
+                *g.entry(format!("A={},B={}: reference server Connected and never re-sent its final flight, no copy of which reached rustrtc", o.state[0], o.state[1])).or_insert(0) += 1;
+                return out;
+            }
+        }
+        let extra = e.1.as_ref().map(|r| format!(", reference is side {} (error {:?}, final flight sent {} delivered {})", ["A", "B"][r.ref_idx], r.ref_error, r.ref_final_sent, r.ref_final_delivered)).unwrap_or_default();
         out.push(Verdict {
             kind: format!("not_converged(A={},B={})", o.state[0], o.state[1]),
-            detail: format!("after {} virtual ms (handshake deadline 30 s): states {:?}, connected_at {:?}", o.end_ms, o.state, o.connected_at_ms),
+            detail: format!("after {} virtual ms (handshake deadline 30 s): states {:?}, connected_at {:?}{}", o.end_ms, o.state, o.connected_at_ms, extra),
         });
     }
     out
 }
 
-fn sig(cfg: &HsCfg, devs: &[(usize, usize)], points: &[(usize, String)]) -> String {
+fn sig(faults: &[HFault], devs: &[(usize, usize)], points: &[(usize, String)]) -> String {
     let mut parts: Vec<String> = devs
         .iter()
-        .map(|(p, c)| format!("{}@{}", cfg.faults.get(c.wrapping_sub(1)).map(|f| f.name()).unwrap_or("?".into()), points.get(*p).map(|x| x.1.clone()).unwrap_or("?".into())))
+        .map(|(p, c)| format!("{}@{}", faults.get(c.wrapping_sub(1)).map(|f| f.name()).unwrap_or("?".into()), points.get(*p).map(|x| x.1.clone()).unwrap_or("?".into())))
         .collect();
     parts.sort();
     parts.join(",")
 }
 
-fn hist_json(cfg: &HsCfg, devs: &[(usize, usize)], points: &[(usize, String)], seed: u64) -> serde_json::Value {
-    json!({"seed": seed, "deviations": devs.iter().map(|(p, c)| json!({"point": p, "choice": c,
-        "fault": cfg.faults.get(c.wrapping_sub(1)).map(|f| f.name()), "datagram": points.get(*p).map(|x| x.1.clone())})).collect::<Vec<_>>()})
+fn hist_json(plan: &str, faults: &[HFault], devs: &[(usize, usize)], points: &[(usize, String)], seed: u64) -> serde_json::Value {
+    json!({"plan": plan, "seed": seed, "deviations": devs.iter().map(|(p, c)| json!({"point": p, "choice": c,
+        "fault": faults.get(c.wrapping_sub(1)).map(|f| f.name()), "datagram": points.get(*p).map(|x| x.1.clone())})).collect::<Vec<_>>()})
+}
+
+fn general() -> Vec<HFault> {
+    all_hfaults().into_iter().filter(|f| *f != HFault::Split3Mixed).collect()
+}
+
+/// (plan name, fault alphabet, bound). A plan whose name starts with `interop-` runs the mixed pair.
+fn plans(thorough: bool) -> Vec<(&'static str, Vec<HFault>, usize)> {
+    if thorough {
+        vec![
+            ("all-faults", general(), 3),
+            ("drops-only", vec![HFault::Drop], 6),
+            ("fragment-permutation", vec![HFault::Split3Mixed, HFault::Drop], 2),
+            ("interop-rustrtc-client", general(), 2),
+            ("interop-rustrtc-server", general(), 2),
+            ("interop-rustrtc-client-drops", vec![HFault::Drop], 3),
+            ("interop-rustrtc-server-drops", vec![HFault::Drop], 3),
+        ]
+    } else {
+        vec![
+            ("all-faults", general(), 2),
+            ("drops-only", vec![HFault::Drop], 3),
+            ("fragment-permutation", vec![HFault::Split3Mixed], 1),
+            ("interop-rustrtc-client", general(), 1),
+            ("interop-rustrtc-server", general(), 1),
+        ]
+    }
+}
+
+const HORIZON_MS: u64 = 36_000;
+
+fn run_one(plan: &str, faults: &[HFault], devs: Vec<(usize, usize)>, seed: u64, record_wire: bool, wall: std::time::Duration) -> (vh::explore::Chooser, Option<Ex>) {
+    match Pair::from_plan(plan) {
+        Some(pair) => {
+            let c = RefCfg { pair, faults: faults.to_vec(), horizon_ms: HORIZON_MS, record_wire };
+            let o = dtls_ref::run_interop(&c, devs, seed, wall);
+            (o.chooser, o.obs.map(|r| Ex(r.hs.clone(), Some(r))))
+        }
+        None => {
+            let c = HsCfg { faults: faults.to_vec(), horizon_ms: HORIZON_MS, record_wire };
+            let o = run_handshake(&c, devs, seed, wall);
+            (o.chooser, o.obs.map(|h| Ex(h, None)))
+        }
+    }
 }
 
 fn main() {
     let cli = vh::cli();
     vh::install_quiet_panic_hook();
     let thorough = cli.tier == vh::Tier::Thorough;
-    let cfg = HsCfg { faults: all_hfaults(), horizon_ms: 36_000, record_wire: false };
     if let Some(path) = &cli.replay {
         let v: serde_json::Value = serde_json::from_str(&std::fs::read_to_string(path).unwrap_or_else(|e| vh::machinery_failure(&format!("{e}")))).unwrap();
         let r = &v["replay"];
         let seed = r["seed"].as_u64().unwrap_or(cli.seed);
+        // replay files written before the plan name was stored used the full alphabet of the
+        // rustrtc<->rustrtc plans, whose choice numbering is all_hfaults()
+        let plan = r["plan"].as_str().unwrap_or("all-faults").to_string();
+        let faults: Vec<HFault> = if r["plan"].is_null() {
+            all_hfaults()
+        } else {
+            let mut all = plans(true);
+            all.extend(plans(false));
+            all.into_iter().find(|p| p.0 == plan).map(|p| p.1).unwrap_or_else(|| vh::machinery_failure(&format!("unknown plan {plan} in replay file")))
+        };
         let devs: Vec<(usize, usize)> = r["deviations"].as_array().unwrap().iter().map(|d| (d["point"].as_u64().unwrap() as usize, d["choice"].as_u64().unwrap() as usize)).collect();
-        let mut c2 = cfg.clone();
-        c2.record_wire = true;
+        println!("plan {plan}{}", Pair::from_plan(&plan).map(|p| format!(" (side {} is rustrtc, the other the webrtc-rs dtls reference)", p.rustrtc_side().name())).unwrap_or_default());
         let mut bad = 0;
         for round in 0..2 {
-            let out = run_handshake(&c2, devs.clone(), seed, std::time::Duration::from_secs(60));
-            match out.obs {
+            let (_, ex) = run_one(&plan, &faults, devs.clone(), seed, true, std::time::Duration::from_secs(60));
+            match ex {
                 None => {
                     println!("replay {round}: LIVELOCK");
                     bad += 1;
                 }
-                Some(o) => {
+                Some(ex) => {
+                    let o = &ex.0;
                     if round == 0 {
                         for (t, l, f) in &o.wire {
                             println!("{t:>7} {l} {}", if f.is_empty() { String::new() } else { format!("<== {f}") });
                         }
                     }
-                    let vs = oracle(&Ex(o.clone()));
+                    let vs = oracle(&ex);
                     println!("replay {round}: trace={:x} states={:?} connected_at={:?} verdicts={:?}", o.trace_hash, o.state, o.connected_at_ms, vs.iter().map(|v| format!("{}: {}", v.kind, v.detail)).collect::<Vec<_>>());
+                    if let Some(r) = &ex.1 {
+                        println!("          reference: side {} error={:?} peer_cert_ok={:?} final flight sent {} / delivered {}; rustrtc handshake datagrams after reference Connected: {}; excused as reference limitation: {:?}",
+                            ["A", "B"][r.ref_idx], r.ref_error, r.ref_peer_cert_ok, r.ref_final_sent, r.ref_final_delivered, r.rustrtc_tx_after_ref_connected, ref_at_fault(o, r));
+                    }
                     if !vs.is_empty() {
                         bad += 1;
                     }
@@ -98,23 +185,17 @@ fn main() {
     let mut traces = 0u64;
     let mut capped = false;
     let mut per = vec![];
+    let mut interop_total = 0u64;
+    let mut interop_wall = 0f64;
     for seed in seeds {
-        // (fault alphabet, bound): full alphabet to B, drops only one deeper
-        let general: Vec<HFault> = all_hfaults().into_iter().filter(|f| *f != HFault::Split3Mixed).collect();
-        let plans: Vec<(&str, Vec<HFault>, usize)> = if thorough {
-            vec![("all-faults", general.clone(), 3), ("drops-only", vec![HFault::Drop], 6), ("fragment-permutation", vec![HFault::Split3Mixed, HFault::Drop], 2)]
-        } else {
-            vec![("all-faults", general.clone(), 2), ("drops-only", vec![HFault::Drop], 3), ("fragment-permutation", vec![HFault::Split3Mixed], 1)]
-        };
-        for (pname, faults, bound) in plans {
-            let c = HsCfg { faults, ..cfg.clone() };
+        for (pname, faults, bound) in plans(thorough) {
+            let interop = Pair::from_plan(pname);
+            // signatures of the mixed pairs carry the pair, not the alphabet variant
+            let sig_prefix = interop.map(|p| format!("{};", p.plan())).unwrap_or_default();
             let t0 = std::time::Instant::now();
             let mut viols = vec![];
             let mut samples = vec![];
-            let run = |devs: Vec<(usize, usize)>| {
-                let o = run_handshake(&c, devs, seed, std::time::Duration::from_secs(30));
-                (o.chooser, o.obs.map(Ex))
-            };
+            let run = |devs: Vec<(usize, usize)>| run_one(pname, &faults, devs, seed, false, std::time::Duration::from_secs(30));
             let stats = explorer::explore(
                 pname,
                 &run,
@@ -123,13 +204,13 @@ fn main() {
                 if thorough { 40 } else { 15 },
                 &oracle,
                 true,
-                pname != "fragment-permutation",
+                pname != "fragment-permutation" && (interop.is_none() || REQUIRE_DETERMINISM_INTEROP),
                 |devs, points, _o, v| {
-                    viols.push(vh::Violation { signature: format!("{};{}", v.kind, sig(&c, devs, points)), detail: format!("{}: {}", v.kind, v.detail), replay: hist_json(&c, devs, points, seed) });
+                    viols.push(vh::Violation { signature: format!("{}{};{}", sig_prefix, v.kind, sig(&faults, devs, points)), detail: format!("{}: {}", v.kind, v.detail), replay: hist_json(pname, &faults, devs, points, seed) });
                 },
                 |devs, points, o, nv| {
                     if samples.len() < 2 && devs.len() <= 1 {
-                        samples.push(json!({"history": hist_json(&c, devs, points, seed), "states": o.0.state, "connected_at_ms": o.0.connected_at_ms, "datagrams": o.0.datagrams, "violations": nv}));
+                        samples.push(json!({"history": hist_json(pname, &faults, devs, points, seed), "states": o.0.state, "connected_at_ms": o.0.connected_at_ms, "datagrams": o.0.datagrams, "violations": nv}));
                     }
                 },
             );
@@ -143,25 +224,43 @@ fn main() {
             traces += stats.distinct_traces.len() as u64;
             capped |= stats.capped;
             rep.add("transitions", stats.choice_points_total);
+            let dt = t0.elapsed().as_secs_f64();
+            if interop.is_some() {
+                interop_total += stats.histories;
+                interop_wall += dt;
+            }
             println!("  seed={seed} {pname}: bound={bound} histories={} by_level={:?} choice_points(fault-free)={} distinct_traces={} replays={} livelocks={} capped={} {:.1}s",
-                stats.histories, stats.by_level, stats.baseline_points, stats.distinct_traces.len(), stats.replays_checked, stats.livelocks, stats.capped, t0.elapsed().as_secs_f64());
-            per.push(json!({"seed": seed, "plan": pname, "bound": bound, "histories": stats.histories, "by_level": stats.by_level, "choice_points_fault_free": stats.baseline_points, "distinct_traces": stats.distinct_traces.len(), "capped": stats.capped}));
+                stats.histories, stats.by_level, stats.baseline_points, stats.distinct_traces.len(), stats.replays_checked, stats.livelocks, stats.capped, dt);
+            per.push(json!({"seed": seed, "plan": pname, "bound": bound, "histories": stats.histories, "by_level": stats.by_level, "choice_points_fault_free": stats.baseline_points, "distinct_traces": stats.distinct_traces.len(), "capped": stats.capped, "wall_s": (dt * 10.0).round() / 10.0}));
             if stats.baseline_points == 0 {
                 vh::machinery_failure("no choice points");
             }
         }
+    }
+    let limited = REF_LIMITED.lock().unwrap().clone();
+    let limited_n: u64 = limited.values().sum();
+    println!("  interop plans: {interop_total} histories in {interop_wall:.1}s; {limited_n} non-converging histories attributed to the reference endpoint");
+    for (k, n) in &limited {
+        println!("    reference-limited x{n}: {k}");
     }
     rep.set("states", total);
     rep.set("traces_validated_against_impl", total);
     rep.set("evaluations", total);
     rep.set("distinct_nontrivial", traces);
     rep.set("plans", json!(per));
+    rep.set("interop_histories", interop_total);
+    rep.set("interop_reference_limited", json!({"histories": limited_n, "classes": limited}));
     rep.set("exhaustive", !capped);
-    rep.set("rule", "every fault history with <= bound deviations {drop, dup, duplate3, swap, delay 1 s, delay 2.5 s, split into two fragments in order / reversed, split into three fragments delivered 1,3,2} over every handshake datagram (all flights and every retransmission that appears) of two real DtlsTransports; states = histories executed, transitions = datagrams that were choice points; oracle: never both Connected on different keys/exporter/profile, application data readable once both are Connected, both Connected before the 30 s (virtual) handshake deadline");
+    rep.set("rule", "every fault history with <= bound deviations {drop, dup, duplate3, swap, delay 1 s, delay 2.5 s, split into two fragments in order / reversed, split into three fragments delivered 1,3,2} over every handshake datagram (all flights and every retransmission that appears) of two real DtlsTransports, and (plans interop-*) of one real DtlsTransport as client / as server against the webrtc-rs dtls 0.17.2 endpoint (WebRTC configuration: ECDHE-ECDSA-AES128-GCM, both SRTP profiles, EMS requested, client certificate required, peer pinned by fingerprint); states = histories executed, transitions = datagrams that were choice points; oracle: never both Connected on different keys/exporter/profile, application data readable once both are Connected, both Connected before the 30 s (virtual) handshake deadline");
     rep.assume("plan fragment-permutation (three fragments delivered 1,3,2): a mis-assembled message is parsed as garbage whose interpretation depends on the DTLS randoms, which the harness does not own; its histories are executed but the identical-replay requirement is waived for that plan only");
-    rep.assume("rustrtc<->rustrtc only (no reference DTLS peer under the paused clock); select! branch order seeded");
+    rep.assume("select! branch order seeded (rustrtc's and the reference's: both use tokio's select!, both draw from the runtime's seeded RNG)");
+    rep.assume("mixed pairs: the reference exposes no key block, so 'same keys' is judged by its exporter output (a function of master secret and randoms) equalling rustrtc's export_keying_material, the negotiated SRTP profile, and the application-data round trip in both directions under the record keys");
+    rep.assume("mixed pairs: the reference has no handshake deadline and a constant 1 s retransmission interval (Config::flight_interval default; all its timers are tokio timers, so they run on the paused clock), rustrtc's 30 s deadline is the binding one. One reference limitation is excused and counted in interop_reference_limited: as server it never re-sends its final flight once DTLSConn::new has returned, so a history in which no copy of that flight reached rustrtc while rustrtc kept retransmitting is not held against rustrtc");
     if total < 10 || traces < 2 {
         vh::machinery_failure("vacuous exploration");
     }
     std::process::exit(rep.finish());
 }
+
+/// The mixed pairs replay identically (see DESIGN 2.2): the requirement is enforced for them too.
+const REQUIRE_DETERMINISM_INTEROP: bool = true;
